@@ -152,6 +152,17 @@ def share(ctx):
                     m = r.targs[1]
             if m not in SHARED_CAPABLE:
                 continue
+            # a reader never waits (spins) for a condition that only another handle's release can change
+            from ..blocking import classify_loops
+            seen_fns = set()
+            _reader_acquisitions(ctx, f, seen=seen_fns)
+            spins = []
+            for g in [x for x in fb.functions(rec=cls) if x.id in seen_fns and x.recq == f.recq]:
+                spins += [(g, d) for _h, k, d in classify_loops(g) if k in ("spin-wait", "infinite")]
+            ctx.ob(rid, not spins, spins[0][0].where if spins else f.where,
+                   "%s on M=%s contains no wait loop (nothing a reader does depends on another reader leaving)" % (f.name, m),
+                   "" if not spins else "spin-wait in %s: %s - while another reader holds its handle the queued work cannot run, so "
+                   "this reader spins until that reader leaves" % (spins[0][0].name, spins[0][1]), fn=f.label, inst=f.qname)
             modes = _reader_acquisitions(ctx, f)
             if not modes:
                 ctx.unknown("%s: no acquisition of m_mutex recognised in %s at %s" % (rid, f.name, f.where))
